@@ -223,8 +223,10 @@ def jobs(prop, tier):
         if q:
             return [dict(SE("sync_db_edge", 2, rate=0.03), **f), dict(SE("sync_db_sc_edge", 2, rate=0.01), **f),
                     dict(SS("sync_db_sim", 3, 10, 60), **f)]
-        return [dict(SM("sync_db2"), module="OrdaSyncFault.tla"), dict(SE("sync_db_edge", 2), **f),
-                dict(SE("sync_db_sc_edge", 2), **f), dict(SS("sync_db_sim", 3, 800, 80), **f)]
+        # (every transition of both graphs replayed took longer than a shard's time limit on a loaded machine - every faulted
+        # behaviour waits for the background work of earlier pushes, some restart the server: sampled at eight times the quick rate)
+        return [dict(SM("sync_db2"), module="OrdaSyncFault.tla"), dict(SE("sync_db_edge", 2, rate=0.25), **f),
+                dict(SE("sync_db_sc_edge", 2, rate=0.1), **f), dict(SS("sync_db_sim", 3, 200, 80), **f)]
     if prop == "C04":
         if q:
             return [E("list_edge3", "list", 3), E("list_edgeb", "list", 2), E("list_edge", "list", 2, rate=0.25), S("list_sim", "list", 3, 80, 40),
